@@ -979,10 +979,6 @@ func TestVerifC20_Regress_StunReservedBits(t *testing.T) {
 	if len(bad) > 0 {
 		msg := fmt.Sprintf("C20: %d of %d datagrams that are not STUN messages (most significant two bits of the first byte not zero: QUIC header forms) were withheld from QUIC as STUN binding responses:\n  %s",
 			len(bad), n, strings.Join(bad, "\n  "))
-		if vC20ReservedKnown() && !vKnown(vC20SigReserved) {
-			t.Logf("finding %s acknowledged via VERIF_C20_KNOWN, not failing: %s", vC20SigReserved, msg)
-			return
-		}
 		t.Fatal(msg)
 	}
 }
